@@ -15,8 +15,15 @@ SHAPES = [(1, 1), (1, 4), (4, 1), (2, 3), (3, 2), (2, 2), (1, 2), (3, 1), (3, 3)
 DTYPES = ["f8", "f4", "i8", "mixed"]
 
 
-def gen_case(rng, tier):
+# memory layouts that are always exercised (grids with both spatial dimensions > 1, non-square): (shape, layouts of obs / cm_hist / cm_future)
+FORCED = [((2, 3), ("F", "F", "F")), ((3, 2), ("stored[y,x,t]",) * 3), ((2, 3), ("F", "C", "C")), ((3, 2), ("C", "C", "F")),
+          ((3, 3), ("strided", "F", "stored[x,y,t]")), ((2, 3), ("stored[x,y,t]",) * 3), ((3, 2), ("strided",) * 3), ((2, 3), ("C", "F", "F"))]
+
+
+def gen_case(rng, tier, force=None):
     nx, ny = rng.choice(SHAPES)
+    if force:
+        nx, ny = force[0]
     To, Th, Tf = rng.randint(1, 6), rng.randint(1, 6), rng.randint(1, 6)
     if rng.random() < 0.25:
         Th = To = Tf
@@ -27,12 +34,16 @@ def gen_case(rng, tier):
            "mixed": tuple(rng.choice([np.float64, np.float32]) for _ in range(3))}[dt]
     obs, hist, fut = (G.rand_data(nprs, T, nx, ny, d) for T, d in zip((To, Th, Tf), dts))
     marker = rng.choice([None, None, None, G.M_LONG, G.M_ONE])
+    if force:
+        marker = None
     mcell = None
     if marker is not None:
         mcell = (rng.randrange(nx), rng.randrange(ny))
         (fut if kind == "deb" else obs)[0, mcell[0], mcell[1]] = marker
     failsafe = rng.random() < 0.3
-    return dict(kind=kind, nx=nx, ny=ny, To=To, Th=Th, Tf=Tf, dtype=dt, marker=marker, mcell=mcell, failsafe=failsafe), obs, hist, fut
+    layouts = force[1] if force else tuple(rng.choice(G.LAYOUTS) if rng.random() < 0.4 else "C" for _ in range(3))
+    obs, hist, fut = (G.relayout(a, lay) for a, lay in zip((obs, hist, fut), layouts))
+    return dict(kind=kind, nx=nx, ny=ny, To=To, Th=Th, Tf=Tf, dtype=dt, marker=marker, mcell=mcell, failsafe=failsafe, layouts=list(layouts)), obs, hist, fut
 
 
 def expected_dtype(fut):
@@ -49,9 +60,13 @@ class _Packing:
         self.problems.append((item[0], {**item[1], **G.pack(*self.data)}))
 
 
-def oracle(case, deb, obs, hist, fut, results, problems, kw=None):
-    """the property on the real code: every result = stacked apply_location, same shape / dtype, all results equal"""
+def oracle(case, deb, obs, hist, fut, results, problems, kw=None, ref_deb=None):
+    """the property on the real code: every result = stacked apply_location, same shape / dtype, all results equal.
+    ref_deb: a FRESH instance of the same configuration for the per-location reference (an instance that has been through apply
+    may carry state; the property compares with the debiaser as configured)"""
     kw = kw or {}
+    if ref_deb is not None:
+        deb = ref_deb
     problems = _Packing(problems, obs, hist, fut)
     out_T = obs.shape[0] if case["kind"] == "dc" else fut.shape[0]
     dt = expected_dtype(fut)
@@ -84,11 +99,23 @@ def oracle(case, deb, obs, hist, fut, results, problems, kw=None):
             problems.append((f"{label} and {first[0]} return different arrays", case))
 
 
+def check_state(case, deb, snap, obs, hist, fut, problems):
+    """apply must leave the instance as configured: a changed attribute makes later cells / later calls behave differently"""
+    after = G.snapshot(deb)
+    changed = sorted(k for k in set(snap) | set(after) if snap.get(k) != after.get(k))
+    if changed:
+        problems.append((f"apply changed the debiaser instance: {', '.join(f'{k}: {snap.get(k)} -> {after.get(k)}' for k in changed)[:200]}",
+                         {**case, **G.pack(obs, hist, fut)}))
+
+
 def run(tier, res, force_search=False):
     rng = random.Random(C.seed() * 104729 + 5)
     res.rule = ("cases = (debiaser kind, grid shape, three time lengths, dtypes, failsafe flag, optional wrong-length / length-1 marker cell) from one PRNG "
                 "(VERIF_SEED); every case is run serially and with parallel=True (process counts from {1,2,3,5}); non-trivial = more than one cell or unequal "
-                "time lengths; distinct = distinct (kind, nx, ny, To, Th, Tf, dtype, marker, failsafe) tuples. Real debiasers: 8 x small grids, serial + parallel")
+                "time lengths; distinct = distinct (kind, nx, ny, To, Th, Tf, dtype, marker, failsafe, memory layouts) tuples; memory layouts (C, Fortran, stored [x,y,t] / [y,x,t], "
+                "strided) per input, 8 forced layout cases on non-square grids; process counts include the default and 8 (> number of cells). Real debiasers: 8 x small grids, "
+                "running windows with time arrays, QDM pr with an all-dry first cell, ISIMIP with a degenerate first cell, argument aliasing; serial + parallel, "
+                "reference = apply_location on copies with a FRESH instance")
     res.trusted = C.BASE_TRUSTED + [
         "multiprocessing.Pool.starmap is modelled by Model.Grid.poolRun/starmap (slots indexed by argument position, explicit completion schedule); "
         "the starmap contract is *derived* from that model (Props.C05.starmap_contract), that the runtime behaves like the model is trusted and exercised by the tier-B runs",
@@ -121,17 +148,19 @@ def run(tier, res, force_search=False):
     # ---- probe debiasers through the real apply / DeltaChange.apply
     mismatch_budget = []
     for k in range(n_cases):
-        case, obs, hist, fut = gen_case(rng, tier)
+        case, obs, hist, fut = gen_case(rng, tier, FORCED[k] if k < len(FORCED) else None)
         deb = G.make(case["kind"])
         ncell = case["nx"] * case["ny"]
         nprocs = [rng.choice(G.NPROCS_QUICK)] if tier == "quick" else rng.sample(G.NPROCS_QUICK, 2)
         if k % 9 == 0:
             nprocs = list(G.NPROCS_QUICK)
+        if k % 5 == 1:
+            nprocs = nprocs + [None, 8]  # the library default (4) and more processes than most of these grids have cells
         results = [("serial", G.run_apply(deb, obs, hist, fut, failsafe=case["failsafe"], progressbar=(k % 7 == 0)))]
         for p in nprocs:
-            results.append((f"parallel/{p}", G.run_apply(deb, obs, hist, fut, parallel=True, nproc=p, failsafe=case["failsafe"])))
+            results.append((f"parallel/{p or 'default'}", G.run_apply(deb, obs, hist, fut, parallel=True, nproc=p, failsafe=case["failsafe"])))
         case["nprocs"] = nprocs
-        res.count((case["kind"], case["nx"], case["ny"], case["To"], case["Th"], case["Tf"], case["dtype"], case["marker"], case["failsafe"]),
+        res.count((case["kind"], case["nx"], case["ny"], case["To"], case["Th"], case["Tf"], case["dtype"], case["marker"], case["failsafe"], tuple(case["layouts"])),
                   ncell > 1 or len({case["To"], case["Th"], case["Tf"]}) > 1, sample={**case, "serial": G.canon(results[0][1])[:120]})
         oracle(case, deb, obs, hist, fut, results, problems)
         # correspondence with the model: serial, and parallel under a random completion schedule
@@ -188,9 +217,73 @@ def run(tier, res, force_search=False):
             deb = mk()
             case = dict(kind="dc" if name == "DeltaChange" else "deb", what="real/" + name, nx=nx, ny=ny, To=To, Th=Th, Tf=Tf,
                         dtype=str(np.dtype(dtype)), seed=C.seed(), rep=rep)
-            rs = [("serial", G.run_apply(deb, obs, hist, fut))] + [(f"parallel/{p}", G.run_apply(deb, obs, hist, fut, parallel=True, nproc=p)) for p in nprocs]
-            oracle(case, deb, obs, hist, fut, rs, problems)
+            snap = G.snapshot(deb)
+            rs = [("serial", G.run_apply(deb, obs, hist, fut))] + [(f"parallel/{p}", G.run_apply(mk(), obs, hist, fut, parallel=True, nproc=p)) for p in nprocs]
+            oracle(case, deb, obs, hist, fut, rs, problems, ref_deb=mk)
+            check_state(case, deb, snap, obs, hist, fut, problems)
             res.count(("real", name, nx, ny, To, Th, Tf, str(np.dtype(dtype))), True, sample=case if rep == 0 and name == "QuantileMapping" else None)
+
+    # ---- a degenerate FIRST cell (constant model series: the parametric fit of ISIMIP step 6 fails its KS test there) must not change how the
+    #      later cells are treated: every cell = the cell alone on a fresh instance, serial = parallel, instance attributes unchanged by apply
+    import datetime
+
+    allmk = {**debs, **G.more_debiasers()}
+    from ibicus.debias import ISIMIP
+
+    allmk["isimip/tas-windows"] = lambda: ISIMIP.from_variable("tas", running_window_step_length=31)
+    for name, T0 in (("ISIMIP", 60), ("isimip/tas-windows", 380), ("QuantileMapping", 50), ("ScaledDistributionMapping", 50)):
+        if tier == "quick" and name in ("QuantileMapping", "ScaledDistributionMapping") and not (force_search or not lean_ok or mismatches):
+            continue
+        nprs = np.random.RandomState(rng.randint(0, 2**31 - 1))
+        nx, ny = rng.choice([(2, 2), (1, 3), (2, 3)])
+        To, Th, Tf = T0 + rng.randint(0, 9), T0 + rng.randint(0, 9), T0 + rng.randint(0, 9)
+        obs, hist, fut = G.tas_grid(nprs, To, nx, ny, 283), G.tas_grid(nprs, Th, nx, ny, 285), G.tas_grid(nprs, Tf, nx, ny, 287)
+        hist[:, 0, 0] = 273.15
+        fut[:, 0, 0] = 273.15
+        mk = allmk[name]
+        deb = mk()
+        case = dict(kind="deb", what="real/" + name, variant="first cell has constant cm_hist / cm_future", nx=nx, ny=ny, To=To, Th=Th, Tf=Tf,
+                    dtype="float64", seed=C.seed(), nprocs=[2])
+        _, errs = G.stacked(mk, obs, hist, fut, Tf, fut.dtype)
+        if errs:
+            res.notes.append(f"{name}: the constant cell raises {type(errs[sorted(errs)[0]]).__name__} — not an instance of C05 (C13 covers failures)")
+            continue
+        snap = G.snapshot(deb)
+        rs = [("serial", G.run_apply(deb, obs, hist, fut)), ("parallel/2", G.run_apply(mk(), obs, hist, fut, parallel=True, nproc=2))]
+        oracle(case, deb, obs, hist, fut, rs, problems, ref_deb=mk)
+        check_state(case, deb, snap, obs, hist, fut, problems)
+        res.count(("degenerate-first", name, nx, ny, To, Th, Tf), True, sample=case if name == "ISIMIP" else None)
+
+    # ---- argument aliasing: the same array object passed twice (adjusting the historical period: apply(obs, H, H); apply(O, O, F)).
+    #      serial (views of the caller's arrays) = parallel (pickled copies) = per-location result on independent copies
+    alias_names = list(debs) + ["pr/ScaledDistributionMapping", "pr/QuantileDeltaMapping"]
+    if tier == "quick" and not (force_search or not lean_ok or mismatches):
+        alias_names = ["ScaledDistributionMapping", "pr/ScaledDistributionMapping", "pr/QuantileDeltaMapping", "ISIMIP", "DeltaChange", "CDFt"] + rng.sample(
+            ["LinearScaling", "QuantileMapping", "ECDFM", "QuantileDeltaMapping"], 1)
+    for name in alias_names:
+        mk = allmk[name]
+        nprs = np.random.RandomState(rng.randint(0, 2**31 - 1))
+        nx, ny = rng.choice([(2, 2), (1, 2), (2, 1)])
+        T = rng.randint(40, 70)
+        if name.startswith("pr/"):
+            o0, h0, f0 = G.pr_grid(nprs, T, nx, ny, 0.8, 6), G.pr_grid(nprs, T, nx, ny, 0.9, 8), G.pr_grid(nprs, T, nx, ny, 0.9, 10)
+        else:
+            o0, h0, f0 = G.tas_grid(nprs, T, nx, ny, 283), G.tas_grid(nprs, T, nx, ny, 285), G.tas_grid(nprs, T, nx, ny, 287)
+        for alias in ("cm_future is cm_hist", "cm_hist is obs"):
+            def args():
+                o, h, f = o0.copy(), h0.copy(), f0.copy()
+                return (o, h, h) if alias == "cm_future is cm_hist" else (o, o, f)
+
+            ref_args = args()
+            case = dict(kind="dc" if name == "DeltaChange" else "deb", what="real/" + name, alias=alias, nx=nx, ny=ny, To=T, Th=T, Tf=T,
+                        dtype="float64", seed=C.seed(), nprocs=[2])
+            _, errs = G.stacked(mk, *ref_args, T, np.dtype(float))
+            if errs:
+                res.notes.append(f"{name} / {alias}: location {sorted(errs)[0]} raises {type(errs[sorted(errs)[0]]).__name__} — skipped")
+                continue
+            rs = [("serial", G.run_apply(mk(), *args())), ("parallel/2", G.run_apply(mk(), *args(), parallel=True, nproc=2))]
+            oracle(case, mk(), *ref_args, rs, problems, ref_deb=mk)
+            res.count(("alias", name, alias, nx, ny, T), True, sample=case if name == "pr/ScaledDistributionMapping" and alias.startswith("cm_future") else None)
 
     # ---- kwargs reach apply_location in every branch (both probes, serial and parallel) — always, not by chance
     for kind in ("deb", "dc"):
@@ -220,8 +313,8 @@ def run(tier, res, force_search=False):
             deb = more[name]()
             case = dict(kind="dc" if "DeltaChange" in name else "deb", what="real/" + name, nx=nx, ny=ny, To=lengths[0], Th=lengths[1], Tf=lengths[2],
                         dtype="float64", starts=starts, seed=C.seed(), rep=rep, nprocs=[2])
-            rs = [("serial+time", G.run_apply(deb, obs, hist, fut, **kw)), ("parallel/2+time", G.run_apply(deb, obs, hist, fut, parallel=True, nproc=2, **kw))]
-            oracle(case, deb, obs, hist, fut, rs, problems, kw)
+            rs = [("serial+time", G.run_apply(deb, obs, hist, fut, **kw)), ("parallel/2+time", G.run_apply(more[name](), obs, hist, fut, parallel=True, nproc=2, **kw))]
+            oracle(case, deb, obs, hist, fut, rs, problems, kw, ref_deb=more[name])
             # sensitivity of this case: without the time arrays (dates inferred from 1 January) the result is a different one
             r0 = G.run_apply(deb, obs, hist, fut)
             sensitive = rs[0][1][0] == "ok" and r0[0] == "ok" and not G.same(rs[0][1][1], r0[1])
@@ -248,12 +341,12 @@ def run(tier, res, force_search=False):
         cols = {}
         for vname, o, h in variants:
             case = dict(kind="deb", what="real/" + name, variant=vname, nx=nx, ny=ny, To=To, Th=Th, Tf=Tf, dtype="float64", seed=C.seed(), nprocs=[2])
-            _, errs = G.stacked(deb, o, h, fut, Tf, fut.dtype)
+            _, errs = G.stacked(more[name], o, h, fut, Tf, fut.dtype)
             if errs:  # the degenerate cell is rejected by this debiaser: not an instance (C13 covers failures)
                 res.notes.append(f"{name}/{vname}: cell {sorted(errs)[0]} raises {type(errs[sorted(errs)[0]]).__name__} — variant skipped")
                 continue
-            rs = [("serial", G.run_apply(deb, o, h, fut)), ("parallel/2", G.run_apply(deb, o, h, fut, parallel=True, nproc=2))]
-            oracle(case, deb, o, h, fut, rs, problems)
+            rs = [("serial", G.run_apply(deb, o, h, fut)), ("parallel/2", G.run_apply(more[name](), o, h, fut, parallel=True, nproc=2))]
+            oracle(case, deb, o, h, fut, rs, problems, ref_deb=more[name])
             res.count(("pr", name, vname, nx, ny, To, Th, Tf), True, sample=case if vname == "dry-first" and "Delta" in name else None)
             if rs[0][1][0] == "ok":
                 cols[vname] = rs[0][1][1][:, -1, -1]
@@ -288,6 +381,12 @@ def replay(data):
         print("replay: no failing input recorded (a proof obligation / the correspondence broke):", str(data.get("broken"))[:300])
         return 2
     obs, hist, fut = G.unpack(fi)
+    if fi.get("layouts"):
+        obs, hist, fut = (G.relayout(a, lay) for a, lay in zip((obs, hist, fut), fi["layouts"]))
+    if fi.get("alias") == "cm_future is cm_hist":
+        fut = hist
+    elif fi.get("alias") == "cm_hist is obs":
+        hist = obs
     deb = G.debiaser_for(fi)
     kw = fi.get("kwargs") or {}
     if fi.get("starts"):
@@ -297,7 +396,8 @@ def replay(data):
     for p in fi.get("nprocs") or [2]:
         results.append((f"parallel/{p}", G.run_apply(deb, obs, hist, fut, parallel=True, nproc=p, failsafe=fs, **kw)))
     problems = []
-    oracle({k: v for k, v in fi.items() if k not in ("obs", "hist", "fut")}, deb, obs, hist, fut, results, problems, kw)
+    oracle({k: v for k, v in fi.items() if k not in ("obs", "hist", "fut")}, deb, obs.copy(), hist.copy(), fut.copy(), results, problems, kw,
+           ref_deb=lambda: G.debiaser_for(fi))
     if "other_obs" in fi and "cell" in fi:
         o2, h2, f2 = G.unpack(fi, "other_")
         i, j = fi["cell"]
